@@ -589,6 +589,7 @@ func runC15(c *Ctx) {
 	c.Rule("R15.2", 3, "randomness/time/pid are confined to the decorative emoji helpers")
 	c.Rule("R15.3", 1, "no goroutines, channels or WaitGroups in reachable module code")
 	c.Rule("R15.4", 1, "a recovered dependency panic does not depend on the iteration order of an unordered collection")
+	c.Rule("R15.5", 1, "diagnostics the dependency accumulates while walking one of its unordered collections are put into an order by the module before they are reported")
 
 	main := c.mainFunc()
 	if main == nil {
@@ -819,6 +820,7 @@ func runC15(c *Ctx) {
 	}
 
 	checkRecoveredPanicOrder(c, "R15.4", ri)
+	checkDepDiagnosticOrder(c, o, ri)
 	// R15.3 no scheduling
 	sched := 0
 	for _, f := range ri.module() {
@@ -937,4 +939,239 @@ func scanMapIterators(c *Ctx, p *packages.Package, fd *ast.FuncDecl, report func
 		report(call, fn.Name(), okSite)
 		return true
 	})
+}
+
+// checkDepDiagnosticOrder (R15.5): the dependency shuffles the iteration of its sets and hash tables on purpose. A function of the
+// dependency that is reachable from main and accumulates errors (errors.Append / errors.Join / append to a slice of errors) inside
+// a loop over such a collection hands back a diagnostic whose parts come in a different order on every run. Every module call of
+// such a function must put the parts into an order (sort them) before the error travels on.
+func checkDepDiagnosticOrder(c *Ctx, o *orderCtx, ri *reachInfo) {
+	type site struct {
+		fn   *ssa.Function
+		key  string
+		pos  token.Pos
+		what string
+	}
+	var sites []site
+	seenDecl := map[*ast.FuncDecl]bool{}
+	nDep := 0
+	for _, f := range ri.nonStd() {
+		if !strings.HasPrefix(fnPkgPath(f), depPath) {
+			continue
+		}
+		root := f
+		for root.Parent() != nil {
+			root = root.Parent()
+		}
+		fd, ok := root.Syntax().(*ast.FuncDecl)
+		if !ok || fd.Body == nil || seenDecl[fd] {
+			continue
+		}
+		seenDecl[fd] = true
+		p := c.All[fnPkgPath(root)]
+		if p == nil {
+			continue
+		}
+		nDep++
+		ast.Inspect(fd.Body, func(n ast.Node) bool {
+			rs, ok := n.(*ast.RangeStmt)
+			if !ok {
+				return true
+			}
+			if ordered, _ := o.rangeOrdered(p, fd, rs, 0); ordered {
+				return true
+			}
+			for _, lk := range loopLeaks(p, rs) {
+				if lk.sink == nil {
+					continue
+				}
+				t := p.TypesInfo.TypeOf(lk.sink)
+				if t == nil || !isErrorish(t) {
+					continue
+				}
+				if ok, _ := discharged(c, p, fd, rs, lk); ok {
+					continue
+				}
+				sites = append(sites, site{fn: root, key: funcKey(p, fd) + ": range over " + types.ExprString(rs.X), pos: lk.pos, what: lk.what})
+			}
+			return true
+		})
+	}
+	c.Extra("dependency_functions_examined_for_diagnostic_order", nDep)
+	// group by dependency function
+	byFn := map[*ssa.Function][]site{}
+	var order []*ssa.Function
+	for _, s := range sites {
+		if byFn[s.fn] == nil {
+			order = append(order, s.fn)
+		}
+		byFn[s.fn] = append(byFn[s.fn], s)
+	}
+	for _, dep := range order {
+		depObj, _ := dep.Object().(*types.Func)
+		first := byFn[dep][0]
+		if depObj == nil {
+			c.Undecided("R15.5", "the dependency function "+shortFn(dep)+" accumulates diagnostics in a shuffled order", first.pos, "it could not be resolved to a declaration")
+			continue
+		}
+		calls := 0
+		for _, p := range c.Pkgs {
+			AllFuncDecls(p, func(fd *ast.FuncDecl) {
+				if fd.Body == nil {
+					return
+				}
+				info := p.TypesInfo
+				var stack []ast.Node
+				ast.Inspect(fd.Body, func(n ast.Node) bool {
+					if n == nil {
+						stack = stack[:len(stack)-1]
+						return true
+					}
+					defer func() { stack = append(stack, n) }()
+					call, ok := n.(*ast.CallExpr)
+					if !ok || objOf(info, call.Fun) != types.Object(depObj) {
+						return true
+					}
+					calls++
+					key := fmt.Sprintf("%s: the problems reported by %s are put into an order before they travel on", funcKey(p, fd), shortFn(dep))
+					detail := fmt.Sprintf("%s %s (%s): the dependency shuffles that iteration, so the parts of the error it returns come in a different order on every run", first.key, first.what, c.Fset.Position(first.pos))
+					witness := "a specification in which two or more non-terminals have no rule (`grammar x; start = a b c;`), run twice: the diagnostics change places"
+					// the call must be the right-hand side of `err := f()` / `err = f()`
+					var errObj types.Object
+					if len(stack) > 0 {
+						if as, ok := stack[len(stack)-1].(*ast.AssignStmt); ok && len(as.Lhs) == 1 && len(as.Rhs) == 1 {
+							if id, ok := as.Lhs[0].(*ast.Ident); ok {
+								errObj = info.Defs[id]
+								if errObj == nil {
+									errObj = info.Uses[id]
+								}
+							}
+						}
+						// f() handed directly to an ordering helper
+						if outer, ok := stack[len(stack)-1].(*ast.CallExpr); ok && orderingHelper(c, info, outer) {
+							c.Pass("R15.5", key, call.Pos(), "the result goes straight into a helper that sorts the parts")
+							return true
+						}
+					}
+					if errObj == nil {
+						c.Fail("R15.5", key, call.Pos(), detail+"; here the result is used as it comes", witness)
+						return true
+					}
+					bad, seenOrder := "", false
+					var st2 []ast.Node
+					ast.Inspect(fd.Body, func(m ast.Node) bool {
+						if m == nil {
+							st2 = st2[:len(st2)-1]
+							return true
+						}
+						defer func() { st2 = append(st2, m) }()
+						id, ok := m.(*ast.Ident)
+						if !ok || info.Uses[id] != errObj || len(st2) == 0 {
+							return true
+						}
+						switch par := st2[len(st2)-1].(type) {
+						case *ast.BinaryExpr:
+							if (par.Op == token.EQL || par.Op == token.NEQ) && (isNilIdent(par.X) || isNilIdent(par.Y)) {
+								return true
+							}
+						case *ast.CallExpr:
+							if orderingHelper(c, info, par) {
+								seenOrder = true
+								return true
+							}
+							bad = "is passed to " + types.ExprString(par.Fun) + " as it comes"
+							return true
+						case *ast.ReturnStmt:
+							bad = "is returned as it comes"
+							return true
+						}
+						bad = "is used as it comes (" + fmt.Sprintf("%T", st2[len(st2)-1]) + ")"
+						return true
+					})
+					switch {
+					case bad != "":
+						c.Fail("R15.5", key, call.Pos(), detail+"; here the error "+bad, witness)
+					case seenOrder:
+						c.Pass("R15.5", key, call.Pos(), "every use of the error is a nil test or goes through a helper that sorts its parts")
+					default:
+						c.Pass("R15.5", key, call.Pos(), "the error is only tested for nil")
+					}
+					return true
+				})
+			})
+		}
+		if calls == 0 {
+			c.Pass("R15.5", shortFn(dep)+" accumulates diagnostics in a shuffled order but no module function calls it directly", first.pos, "")
+		}
+	}
+	if len(order) == 0 {
+		c.Pass("R15.5", "no reachable function of the dependency accumulates diagnostics inside a loop over a shuffled collection", token.NoPos, "")
+	}
+}
+
+func isNilIdent(e ast.Expr) bool {
+	id, ok := ast.Unparen(e).(*ast.Ident)
+	return ok && id.Name == "nil"
+}
+
+// orderingHelper: call is a call of a module function that sorts a slice (a call of a sort function on a local) and returns it.
+func orderingHelper(c *Ctx, info *types.Info, call *ast.CallExpr) bool {
+	fn, _ := objOf(info, call.Fun).(*types.Func)
+	if fn == nil || fn.Pkg() == nil || !strings.HasPrefix(fn.Pkg().Path(), modPath) {
+		return false
+	}
+	p := c.All[fn.Pkg().Path()]
+	if p == nil {
+		return false
+	}
+	found := false
+	AllFuncDecls(p, func(fd *ast.FuncDecl) {
+		if p.TypesInfo.Defs[fd.Name] != types.Object(fn) || fd.Body == nil {
+			return
+		}
+		sorted := map[types.Object]bool{}
+		ast.Inspect(fd.Body, func(n ast.Node) bool {
+			cl, ok := n.(*ast.CallExpr)
+			if !ok || len(cl.Args) == 0 {
+				return true
+			}
+			sf, _ := objOf(p.TypesInfo, cl.Fun).(*types.Func)
+			if sf == nil || sf.Pkg() == nil || !sortFuncs[sf.Pkg().Path()+"."+sf.Name()] {
+				return true
+			}
+			if id, ok := ast.Unparen(cl.Args[0]).(*ast.Ident); ok {
+				sorted[p.TypesInfo.Uses[id]] = true
+			}
+			return true
+		})
+		ast.Inspect(fd.Body, func(n ast.Node) bool {
+			rs, ok := n.(*ast.ReturnStmt)
+			if !ok {
+				return true
+			}
+			for _, r := range rs.Results {
+				if id, ok := ast.Unparen(r).(*ast.Ident); ok && sorted[p.TypesInfo.Uses[id]] {
+					found = true
+				}
+			}
+			return true
+		})
+	})
+	return found
+}
+
+func isErrorish(t types.Type) bool {
+	if types.Identical(t, types.Universe.Lookup("error").Type()) {
+		return true
+	}
+	if sl, ok := t.Underlying().(*types.Slice); ok {
+		return isErrorish(sl.Elem())
+	}
+	if n, ok := t.(*types.Named); ok && strings.Contains(n.Obj().Name(), "Error") {
+		return true
+	}
+	if pt, ok := t.(*types.Pointer); ok {
+		return isErrorish(pt.Elem())
+	}
+	return false
 }
